@@ -526,6 +526,40 @@ def _structural(ctx) -> None:
                     if not excluded(st.ev.conds):
                         probs.append(f"`{st.sh(st.call, 60)}` spreads `{other}` into cells without the str/bytes exclusion: a str/bytes "
                                      f"cell would be split into characters")
+    # ... stated from the operand's side: for `other` a str / bytes (sized, iterable, possibly EMPTY), every result that is not
+    # certainly excluded appends (other,) - one cell.  Three-valued evaluation of each result's path condition under that operand:
+    # a fast path `if isinstance(other, Sized) and len(other) == 0: return <self's cells>` is reachable for '' and drops the cell
+    STR_TRUE = {"str", "bytes", "Sized", "Iterable", "Sequence", "Collection", "Container", "Reversible", "Hashable", "object"}
+    STR_FALSE = {"Vector", "Table", "Row", "list", "tuple", "dict", "Mapping", "set", "frozenset", "range", "int", "float", "bool", "complex",
+                 "Iterator", "Generator", "slice", "date", "datetime", "bytearray", "MutableSequence"}
+
+    def tv_str(c):
+        if c[0] == "bool":
+            rs = []
+            for x in c[2]:
+                r = tv_str(x)
+                rs.append(r)
+                if (c[1] == "and" and r is False) or (c[1] == "or" and r is True):
+                    break
+            if c[1] == "and":
+                return False if False in rs else (None if None in rs else True)
+            return True if True in rs else (None if None in rs else False)
+        if c[0] == "un" and c[1] == "Not":
+            r = tv_str(c[2])
+            return None if r is None else not r
+        if c[0] == "call" and c[1] == ("name", "isinstance") and len(c[2]) == 2 and c[2][0] == OTHER:
+            names = {x[1] for x in subterms(c[2][1]) if x[0] == "name"}
+            if names & STR_TRUE:
+                return True
+            return False if names and names <= STR_FALSE else None
+        return None
+    for st in _result_sites(prog, vl, ("Vector", "cls", "copy")):
+        if any(tv_str(t) is (not pol) for t, pol in flatten_conds(st.ev.conds)):
+            continue                               # not reached by a string operand
+        for d in leaves(st.data):
+            if not any(x == ("tuple", (OTHER,)) for x in _deep_sub(st.it, d)):
+                probs.append(f"`{st.sh(st.call, 60)}` (line {getattr(st.node, 'lineno', 0)}) is reachable for a str / bytes operand - '' is sized and "
+                             f"empty - and does not append it as one cell: t << [3, 'cy', ''] leaves that column one cell short")
     if not n:
         raise AnalysisError("Vector.__lshift__: no result construction found")
     # row << table: a table on the right is handed to Table.__rlshift__ (Python tries it by itself only for a plain Vector on the left):
